@@ -110,6 +110,8 @@ pub struct Machine {
     pub lookups: u64,
     pub calls: u64,
     pub pulls: u64,
+    /// how often program code itself (not an iterator operator) received a value with an unspecified part
+    pub unspec_manual: u64,
 }
 
 /// does the value contain a part the documentation leaves open?
@@ -228,7 +230,7 @@ pub fn equal(a: &V, b: &V) -> R<bool> {
 
 impl Machine {
     pub fn new(fuel: u64) -> Self {
-        Machine { log: Vec::new(), fuel, cells: 0, depth: 0, lookups: 0, calls: 0, pulls: 0 }
+        Machine { log: Vec::new(), fuel, cells: 0, depth: 0, lookups: 0, calls: 0, pulls: 0, unspec_manual: 0 }
     }
 
     fn tick(&mut self) -> R<()> {
@@ -757,7 +759,11 @@ impl Machine {
                 if matches!(fv, V::Unspec) {
                     return giveup("call of an unspecified value");
                 }
-                self.call(&fv, &vals)
+                let r = self.call(&fv, &vals)?;
+                if contains_unspec(&r) {
+                    self.unspec_manual += 1;
+                }
+                Ok(r)
             }
             E::Index(a, i) => {
                 let s = self.expr(a, env)?;
